@@ -57,6 +57,8 @@ def handle (op : String) (args : List String) : Option String :=
     | "c02.gen.extrude_shape", some [pl, sd, cl] =>
         if pl < 2 then some "rejected" else some (genOut (extrudeShapeVerts pl sd) (extrudeShapeTris pl sd (cl != 0)))
     | "c02.gen.extrude_line", some [n] => if n < 2 then some "rejected" else some (genOut (extrudeLineVerts n) (extrudeLineTris n))
+    | "c02.gen.screw", some [l, sg] =>
+        if l < 2 ∨ sg < 2 then some (genOut 0 []) else some (genOut (screwVerts l sg) (screwTris l sg))
     | "c02.gen.quad", some [] => some (genOut quadVerts quadTris)
     | "c02.gen.cube", some [] => some (genOut cubeVerts cubeTris)
     | "c02.gen.cube_unwelded", some [] => some (genOut cubeUnweldedVerts cubeUnweldedTris)
